@@ -14,7 +14,7 @@ EXTRA_IMPORTS = 'From PJ Require Import Model.Msg.\n'
 RULE = ('parse cases: the full product of per-member alphabets for request (5x13x9x10), response (5x16x8x14) and error '
         '(14x8x9) objects, non-object inputs of every JSON type, batches of <=3 elements over 6 element documents, '
         'batch-level error objects; history cases: every id sequence of length <=4 over {null,1,2,"1"} under every '
-        'grouping into append/extend operations, for BatchRequest and BatchResponse. distinct = distinct (kind, input); '
+        'grouping into append/extend operations (the argument of extend a list, a tuple, a generator or an iterator), for BatchRequest and BatchResponse. distinct = distinct (kind, input); '
         'non-trivial = the input is an object or array (reaches the member checks) / the history has >=2 operations')
 EXHAUSTIVE = {'quick': False, 'thorough': True}
 TRUSTED_BASE = ['json value typing as produced by json.loads (dict/list/str/int/float/bool/None)']
@@ -115,7 +115,8 @@ def generate(seed, tier):
     cases = [{'t': 'parse', 'kind': k, 'base': b, 'doc': d} for k, b, d in pc]
     for ops in hc:
         for resp in (False, True):
-            cases.append({'t': 'hist', 'resp': resp, 'ops': ops})
+            # how the argument of extend is handed over: the parameter is typed Iterable
+            cases.append({'t': 'hist', 'resp': resp, 'ops': ops, 'ext_as': ('list', 'tuple', 'gen', 'iter')[len(cases) % 4]})
     return cases
 
 
@@ -168,7 +169,10 @@ def observe(case):
                 if op == 'append':
                     b.append(mk(arg))
                 else:
-                    b.extend([mk(i) for i in arg])
+                    items = [mk(i) for i in arg]
+                    how = case.get('ext_as', 'list')
+                    b.extend({'list': lambda: items, 'tuple': lambda: tuple(items), 'gen': lambda: (x for x in items),
+                              'iter': lambda: iter(items)}[how]())
             except Exception as e:
                 exc = e
             out.append((exc, [x.id for x in b], sorted(b._ids, key=repr)))
